@@ -38,7 +38,9 @@ pub const IMMEDIATE_ACK_EVERY_RMSS: usize = 2;
 pub const SYNACK_RESEND_INTERNAL: Duration = Duration::from_millis(200);
 
 // u16 SeqNrs wrap around. If they are too far apart, this is used to detect if they wrapped or not.
-pub const WRAP_TOLERANCE: u16 = 1024;
+// Half of the number space: any two numbers a connection can have outstanding at once (the
+// buffers allow far more than a thousand small packets) are ordered by their modular distance.
+pub const WRAP_TOLERANCE: u16 = 32767;
 
 pub const CONGESTION_TRACING_LOG_LEVEL: Level = Level::DEBUG;
 pub const RTTE_TRACING_LOG_LEVEL: Level = Level::TRACE;
